@@ -610,6 +610,7 @@ def run_t5(repo: Repo, res: Result) -> None:
             kind="effect",
         )
     run_t5_names(repo, res)
+    run_t5_alias_depth(repo, res)
     # every evaluation runs the whole pipeline afresh: a second evaluation of the same rule object converts, asks and judges
     # against *its* evaluable
     from .tables import run_twice
@@ -826,6 +827,85 @@ def run_t5_names(repo: Repo, res: Result) -> None:
             res.observe(f"C01.T5: the flow of the names given to {naming}() into the module requirement could not be followed ({unseen[0]})")
         else:
             res.add("C01.T5", cons, True, f"names given to {naming}() after modules_that() become the requirement's subjects, after an object-introducing method its objects", where(m, m.node), kind="effect")
+
+
+# concrete subjects for the de-duplication of the 'anything' alias: a package, a descendant two levels below it whose intermediate
+# package is *not* listed, a direct child, a sibling that only shares the text prefix, and an unrelated module
+ALIAS_PROBE = {"probepkg": True, "probepkg.mid.leaf": False, "probepkg.child": False, "probepkgx": True, "otherpkg.mod": True}
+
+
+def run_t5_alias_depth(repo: Repo, res: Result) -> None:
+    """'should not import anything' excludes the subjects themselves: a subject that lies *anywhere* below another subject (any
+    depth, the modules in between need not be listed) is dropped from the rewritten objects - otherwise the search treats its sub
+    tree as excluded and the imports leaving it are never reported; a sibling that merely shares a text prefix is kept.  Decided
+    on concrete names: `Rule().modules_that().are_named([...]).should_not().import_anything().assert_applies(..)` is interpreted
+    and the objects of the first module requirement are read off.  Where the interpreter cannot evaluate the name tests on the
+    constants (a helper it does not follow), this probe gives no verdict (the symbolic rule above still applies)."""
+    from .absint import Alt, Tup
+    from .tables import _rule_class, _scenario_interp
+
+    rule_cls = _rule_class(repo)
+    aa = repo.lookup_method(rule_cls, "assert_applies")
+    probe = run_scenario(repo, Scenario("should", False, True))
+    mr_cls = probe.modreq_new[0].result.cls if probe.modreq_new else None
+    filt = repo.classes.get("pytestarch.eval_structure.evaluable_architecture.ModuleFilter")
+    if mr_cls is None or filt is None or aa is None:
+        return
+    filter_classes = {c.fq for c in repo.classes.values() if any(b.fq == filt.fq for b in repo.mro(c))}
+    for anything in ("import_anything", "be_imported_by_anything"):
+        if repo.lookup_method(rule_cls, anything) is None or repo.lookup_method(rule_cls, "are_named") is None:
+            continue
+        I = Interp(repo, lambda f: descend_pipeline(f) or (f.cls is not None and f.cls.fq in filter_classes), assume={"bool(evaluable)": True})
+        rule = I.instantiate(rule_cls, [], {}, None, None)
+        if not isinstance(rule, Inst):
+            continue
+        names = I.lift(list(ALIAS_PROBE))
+        cur = rule
+        for meth, args in (("modules_that", []), ("are_named", [names]), ("should_not", []), (anything, [])):
+            nxt = I.call_method(cur, meth, args)
+            cur = nxt if isinstance(nxt, Inst) else cur
+        n0 = len(I.events)
+        I.call_method(cur, "assert_applies", [Sym(("root", "evaluable"), EVALUABLE_CLS)])
+        news = [e for e in I.events[n0:] if e.kind == "new" and isinstance(e.result, Inst) and e.result.cls is mr_cls]
+        if not news:
+            continue
+        args = bound_args(repo, news[0])
+        if len(args) < 2:
+            continue
+        objs = args[1]
+        ents = I.iterate(objs) if not isinstance(objs, Sym) else None
+        if ents is None:
+            continue
+        kept: dict = {}
+        concrete = True
+        for x, g in ents:
+            g = I.simp(g)
+            hit = [n for n in ALIAS_PROBE if _mentions(x, n) and not any(m != n and len(m) > len(n) and _mentions(x, m) for m in ALIAS_PROBE)]
+            if len(hit) != 1 or g not in (TRUE, FALSE):
+                concrete = False
+                break
+            kept[hit[0]] = kept.get(hit[0], False) or g == TRUE
+        if not concrete or I.notes:
+            continue  # the name tests were not evaluated on the constants: no verdict from this probe
+        tag = "import" if anything == "import_anything" else "be imported by"
+        bad = []
+        for n, want in ALIAS_PROBE.items():
+            got = kept.get(n, False)
+            if got and not want:
+                depth = "two levels below" if n.count(".") == 2 else "directly below"
+                bad.append(f"`{n}` ({depth} the subject `probepkg`{', the module in between is not a subject' if n.count('.') == 2 else ''}) stays among the rewritten objects: its sub tree is then excluded from the search and imports leaving it are never reported")
+            if want and not got:
+                bad.append(f"`{n}` is dropped although it is not a sub module of another subject" + (" (it only shares the text prefix `probepkg`)" if n == "probepkgx" else ""))
+        fi, node = subj_made_at(I, objs, aa) if isinstance(objs, Coll) else (aa, aa.node)
+        where_fi = next((fr_[2].fi for fq, frames in I.frames_of.items() for fr_ in frames if isinstance(fr_[1], Coll) and fr_[1] is objs), None)
+        if where_fi is not None:
+            fi, node = where_fi, where_fi.node
+        res.add(
+            "C01.T5", f"{fi.relpath}::{fi.qualname}::alias subjects on concrete names [{tag} anything]", not bad,
+            f"subjects {sorted(ALIAS_PROBE)} -> objects {sorted(n for n, k in kept.items() if k)}: every descendant (any depth) of another subject is dropped, siblings are kept" if not bad
+            else f"'should not {tag} anything' with subjects {sorted(ALIAS_PROBE)} is rewritten to the objects {sorted(n for n, k in kept.items() if k)}: " + "; ".join(bad),
+            where(fi, node), kind="flow",
+        )
 
 
 def _plain_name(t) -> bool:
